@@ -1,7 +1,7 @@
 #!/bin/sh
 # run_all.sh [tier] : run every claimed check in sequence on /repo's current tree; print id, exit code, seconds.
 T="${1:-quick}"
-cd /verif || exit 2
+cd "$(dirname "$0")/.." || exit 2; mkdir -p work
 rc_all=0
 for id in $(python3 -c "import json;print(' '.join(c['property_id'] for c in json.load(open('MANIFEST.json'))['checks']))"); do
   s=$(date +%s)
